@@ -27,9 +27,10 @@ quoted anyway).  T2 `sec_cfg`: the codec against the real dulwich functions and
 a real write + read; the parent stream compares the stored configuration with
 `setpf` (set_parent followed by the model's re-read).
 
-NEW finding families of the unchanged /repo (improvement round; the check exits
-1 on /repo until the coordinator triages them; repro scripts in
-/var/tmp/imp-C35C36/c36/):
+Open finding families of the unchanged /repo (found in the improvement round,
+recorded in known_findings.json: reported as KNOWN-FINDING, exit 0; repro
+scripts in /var/tmp/imp-C35C36/c36/).  These three are the ONLY family slugs
+this check ever assigns:
   parent-unnamed-branch-drops-ref      a branch without a name (detached HEAD) has no [branch "<name>"] section:
                                        set_parent(url,branch=foo) is followed by get_parent() == url
                                        (theorems parent_location_unnamed, parent_location_unnamed_witness)
@@ -44,8 +45,12 @@ Findings fixed in /repo (DESIGN §7 F1, F14, F15; fixes 5b3d902, eb9cca4, ef03ad
 the model's `bzrUrlToGitUrl` / `getParentLocation` are the inverse the theorems
 are about; the code as found earlier is modelled by `...Legacy` (witness
 theorems only).  No difference between code and model is tolerated any more: a
-regression to the legacy behaviour is a T2 mismatch AND a plain VIOLATION with
-its family computed from the concrete input (verified by reverting each fix):
+regression to the legacy behaviour is a T2 mismatch AND a plain VIOLATION; the
+old slugs below are only counted in the evidence (`*:legacy-*`), never assigned
+as a family — only the three open families above are, and
+parent-config-value-* only when the damage is exactly what `cfgReread` predicts
+(real file content == model's re-read, getter agrees, every changed value
+contains the character).  Old slugs (verified by reverting each fix):
   url-ref-param-dropped       ref=... parameter written by git_url_to_bzr_url is not read back
   url-branch-left-escaped     branch name that needs %-escaping comes back escaped
   parent-merge-section        set_parent writes [branch "<name>"] merge, get_parent reads [branch "<remote>"]
@@ -743,11 +748,12 @@ def b2g_flush(ctx, I, pending):
             continue
         # (the fixes 5b3d902 / ef03ad7 are in: a difference is never tolerated; when the code behaves like
         # the legacy model again the regression is also reported as a violation with its family)
+        # (the slugs of the repaired defects are only counted, never assigned as a family: a regression is plain)
         fam = b2g_family(I, u)
         if impl_legacy == legacy and fam is not None:
             ctx.count("b2g:legacy-behaviour:" + fam)
             ctx.violation(case, "bzr_url_to_git_url(%r) gives %s, the inverse of git_url_to_bzr_url gives %s"
-                          % (u, show_b2g(impl_legacy, True), show_b2g(model)), family=fam)
+                          % (u, show_b2g(impl_legacy, True), show_b2g(model)), family=None)
         ctx.mismatch(case, impl, model, line="b2g " + cps(u))
     del pending[:]
 
@@ -824,7 +830,9 @@ def oracle_url(ctx, I, loc, branch, ref, out):
             # neither a URL nor rsync-style: returned early, the branch/ref is not recorded at all
             fam = "non-url-location-drops-ref"
         ctx.violation(case, "git_url_to_bzr_url(%r, branch=%r, ref=%r) = %r; bzr_url_to_git_url of it = %r: "
-                      "designates %r, expected (%r, %r)" % (loc, branch, ref, out, t, got, base, want), family=fam)
+                      "designates %r, expected (%r, %r)" % (loc, branch, ref, out, t, got, base, want), family=None)
+        if fam is not None:
+            ctx.count("url:legacy-behaviour:" + fam)
         return
     ok, again = call(I.urls.git_url_to_bzr_url, url2, branch=b2, ref=r2)
     if not ok or again != out:
@@ -1135,9 +1143,11 @@ def header_quote_comment(nm):
     return False
 
 
-def parent_new_family(I, name, loc, o, model_setp):
-    """classify a failed parent round trip that is not one of the fixed (legacy) families, from the concrete input:
-    the branch name, the URL and the values set_parent has to store for it (the model's `setp` reply)"""
+def parent_new_family(I, name, loc, o, model_setp, model_setpf=None, impl_set=None, model_get=None, impl_get=None):
+    """classify a failed parent round trip into one of the OPEN finding families, from the concrete input: the branch
+    name, the URL, the values set_parent has to store for it (the model's `setp` reply) and what the configuration
+    file really held afterwards.  Anything that is not exactly one of these shapes is unclassified (plain
+    VIOLATION)."""
     designates = None
     try:
         _, b, r = I.urls.bzr_url_to_git_url(loc)
@@ -1148,16 +1158,27 @@ def parent_new_family(I, name, loc, o, model_setp):
         return "parent-unnamed-branch-drops-ref"
     if o["after"] == UNREADABLE and header_quote_comment(name.encode("utf-8")):
         return "parent-config-section-quote-comment"
-    if model_setp and not model_setp.startswith("E:") and model_setp != "-":
-        for e in model_setp.split(";"):
-            v = unhx(e.split("=")[1])
-            back = dulwich_reread(v)
-            if back != v:
-                if b"\r" in v:
-                    return "parent-config-value-cr"
-                if b";" in v:
-                    return "parent-config-value-semicolon"
-                return "parent-config-value-stripped"
+    if not model_setp or model_setp.startswith("E:") or model_setp == "-":
+        return None
+    # dulwich's value codec: the damage must be exactly what the model of write_to_file + from_file (`cfgReread`)
+    # predicts — the real file content equals the model's re-read of what set_parent stores, the getter agrees with
+    # the model on that content — and every value that changed on the way contains the character in question
+    if model_setpf is not None:
+        if canon_cfg_reply(model_setpf) != impl_set or model_get != impl_get:
+            return None
+    changed = []
+    for e in model_setp.split(";"):
+        v = unhx(e.split("=")[1])
+        if dulwich_reread(v) != v:
+            changed.append(v)
+    if not changed:
+        return None
+    if all(b";" in v and b"\r" not in v for v in changed):
+        return "parent-config-value-semicolon"
+    if all(b"\r" in v for v in changed):
+        return "parent-config-value-cr"
+    if all(b";" not in v and b"\r" not in v for v in changed):
+        return "parent-config-value-stripped"
     return None
 
 
@@ -1285,11 +1306,14 @@ def sec_parent(ctx, I):
         unreadable = o["after"] == UNREADABLE
         impl_set = cfg_str(o["after"]) if o["set"] == "ok" else o["set"]
         impl_get = ocps(o["get"]) if o["get_ok"] else o["get"]
-        fam = parent_family(I, name, remote, loc, o) if not unreadable else None
-        if fam is None:
-            fam = parent_new_family(I, name, loc, o, m_setp)
+        # only the families of the OPEN findings are ever assigned; the slugs of the repaired defects (F1/F14/F15)
+        # are counted for information and a regression to them is a plain VIOLATION
+        legacy = parent_family(I, name, remote, loc, o) if not unreadable else None
+        fam = parent_new_family(I, name, loc, o, m_setp, rep[4 * i + 1], impl_set, m_get, impl_get)
         if fam is not None:
             ctx.count("parent:family:" + fam)
+        elif legacy is not None:
+            ctx.count("parent:legacy-shape:" + legacy)
         if m_setp != rep[4 * i + 1] and not m_setp.startswith("E:"):
             ctx.count("parent:stored-value-changed-by-reread")
         # --- oracle: a canonical URL is read back as an equivalent URL
@@ -1310,15 +1334,15 @@ def sec_parent(ctx, I):
                               % (name, loc), family=fam)
             continue
         if impl_set != m_set:
-            if fam in ("url-ref-param-dropped", "parent-merge-escaped"):
-                ctx.count("parent:set:legacy:" + fam)
-                ctx.violation(case, "set_parent(%r) stores %s, expected %s" % (loc, impl_set, m_set), family=fam)
+            if legacy in ("url-ref-param-dropped", "parent-merge-escaped"):
+                ctx.count("parent:set:legacy:" + legacy)
+                ctx.violation(case, "set_parent(%r) stores %s, expected %s" % (loc, impl_set, m_set), family=None)
             ctx.mismatch(case, impl_set, m_set, line=lines[4 * i + 1])
         if impl_get != m_get:
             if impl_get == m_getL and name.encode("utf-8") != remote:
                 ctx.count("parent:get:legacy")
                 ctx.violation(case, "_get_parent_location() = %s, expected %s (merge ref read from "
-                              "[branch \"%s\"])" % (impl_get, m_get, remote.decode()), family="parent-merge-section")
+                              "[branch \"%s\"])" % (impl_get, m_get, remote.decode()), family=None)
             ctx.mismatch(case, impl_get, m_get, line=lines[4 * i + 2])
     # --- getter alone, on hand-written configs (entries set_parent never leaves behind)
     go_lines, go_meta = [], []
@@ -1356,7 +1380,7 @@ def sec_parent(ctx, I):
                               "instead of [branch \"%s\"]" % (impl_get if impl_get.startswith(("E:", "~")) else
                                                                uncps(impl_get), m_get if m_get.startswith(("E:", "~"))
                                                                else uncps(m_get), remote.decode(), name),
-                              family="parent-merge-section")
+                              family=None)
             ctx.mismatch(case, impl_get, m_get, line=go_lines[2 * i])
     # --- oracle only: parents given as file: URLs (relative_url is not the identity)
     other = env.fresh_dir("parent")
@@ -1385,7 +1409,7 @@ def sec_parent(ctx, I):
                 ctx.violation(dict(kind="parent-file", name=js(name), branch=js(br_), ref=jb(rf)),
                               "branch %r: set_parent(%r) then get_parent() = %r (remote.origin.url = %r, merge = %r)"
                               % (name, full.replace(other, "<dir>"), str(o["full"]).replace(other, "<dir>"),
-                                 url, merge), family=fam)
+                                 url, merge), family=None)
             ctx.extra.setdefault("parent_file_url_observations", []).append(
                 dict(name=name, set=full.replace(other, "<dir>"), got=str(o["full"]).replace(other, "<dir>")))
 
@@ -1512,11 +1536,10 @@ def replay(ctx, case):
                              "getp %s %s" % (cfg_str(o["after"]), cps(name))])
             model.append(dict(setp=rep[0], getp=rep[1] if rep[1].startswith(("E:", "~")) else uncps(rep[1])))
             if o["set"] == "ok" and (not o["full_ok"] or not equivalent_urls(I, o["full"], loc)):
-                fam = None
-                if o["after"] != UNREADABLE:
-                    fam = parent_family(I, name, pre if pre is not None else b"origin", loc, o)
-                if fam is None:
-                    fam = parent_new_family(I, name, loc, o, rep[0])
+                rep2 = ctx.model(["setpf %s %s %s" % (cfg_str(o["before"]), cps(name), cps(loc))])
+                fam = parent_new_family(I, name, loc, o, rep[0], rep2[0],
+                                        cfg_str(o["after"]) if o["set"] == "ok" else o["set"], rep[1],
+                                        ocps(o["get"]) if o["get_ok"] else o["get"])
                 ctx.violation(case, "branch %r: set_parent(%r) then get_parent() = %r" % (name, loc, o["full"]),
                               family=fam)
     elif k == "parent-get":
@@ -1527,8 +1550,7 @@ def replay(ctx, case):
         m = ctx.model(["getp %s %s" % (cfg_str(o["after"]), cps(name))])[0]
         model = m if m.startswith(("E:", "~")) else uncps(m)
         if (ocps(o["get"]) if o["get_ok"] else o["get"]) != m:
-            ctx.violation(case, "_get_parent_location() = %r, expected %r" % (o["get"], model),
-                          family="parent-merge-section")
+            ctx.violation(case, "_get_parent_location() = %r, expected %r" % (o["get"], model), family=None)
     elif k == "parent-file":
         name, br_, rf = unjs(case["name"]), unjs(case["branch"]), unjb(case["ref"])
         other = env.fresh_dir("parent")
@@ -1545,7 +1567,7 @@ def replay(ctx, case):
         model = "(relative parents are outside the model; oracle only)"
         if o["set"] == "ok" and (not o["full_ok"] or not equivalent_urls(I, o["full"], full)):
             ctx.violation(case, "branch %r: set_parent(%r) then get_parent() = %r" % (name, impl["set_parent"],
-                          impl["get_parent"]), family="non-url-location-drops-ref")
+                          impl["get_parent"]), family=None)
     else:
         raise ValueError("unknown case kind %r" % (k,))
     return dict(case=case, impl=impl, model=model,
